@@ -226,7 +226,15 @@ func (c *EvalCtx) ident(name string) TV {
 	// parameters of the function under verification are mutable cells: outside old(), their current value counts
 	if c.x != nil && !c.noLocals && !c.inOld && c.x.fn != nil {
 		if _, isParam := c.x.params[name]; isParam {
-			if _, shadow := c.shadow[name]; !shadow {
+			// the mutable cell of a parameter carries the parameter's own name; a contract name that differs from it
+			// (the parameter was renamed) must not be looked up among locals and captured variables of that name
+			actual := false
+			for _, p := range c.x.fn.Params {
+				if p.Name() == name {
+					actual = true
+				}
+			}
+			if _, shadow := c.shadow[name]; !shadow && actual {
 				if tv, ok := c.localVarSafe(name); ok && tv.V != nil {
 					return tv
 				}
